@@ -138,5 +138,9 @@ def register(E):
         "(__pycache__, ignored directories); os.unlink removes exactly its argument; os.path.join is a pure function",
         "reading of the statement: 'a .pyc or .pyo file' = a name that ends with '.pyc' / '.pyo'",
     ]
+    if ('walk_syntactic',) not in E.added_axioms:          # the shape of the assumed walk (shared with C14)
+        E.added_axioms.add(('walk_syntactic',))
+        from contracts.find_c14 import walk_syntactic
+        walk_syntactic(E)
     E.add_contract('find.remove_stale_bytecode', REMOVE)
     E.add_contract('options.get_options', TAIL)
